@@ -19,6 +19,7 @@ pub mod c18;
 mod c18dl;
 mod c18rp;
 mod c19;
+mod c19d;
 mod c19f;
 mod c20;
 mod hostsns;
@@ -65,6 +66,7 @@ pub fn run(engine: &str, toks: Vec<Tok>) -> Vec<Tok> {
         "c14_establish" => c14s::establish(toks),
         "c14_front" => c14s::front(toks),
         "c19_front" => c19f::run(toks),
+        "c19_h2_drain" => c19d::run(toks),
         "c17_front" => c17f::run(toks),
         "c17_front_h1" => c17h1::run(toks),
         "c20_run" => c20::run(toks),
